@@ -18,7 +18,7 @@ Apply(e) ==
       [] e.ev = "config"   -> PConfig(e.variant, e.retry, e.burst)
       [] e.ev = "call"     -> PCall(e)
       [] e.ev = "ret"      -> IF e.id \in DOMAIN calls THEN PRet(e)
-                              ELSE bad' = bad \cup {"Harness"} /\ UNCHANGED <<cfg, clk, now, pctx, prt, epoch, inst, calls, snapw, chs, credit, creditR, needEnter, ctxTouch, status, cbseen, boReset, td>>
+                              ELSE bad' = bad \cup {"Harness"} /\ UNCHANGED <<cfg, clk, now, pctx, prt, epoch, inst, calls, snapw, chs, credit, creditR, needEnter, ctxTouch, status, cbseen, boReset, boStop, td>>
       [] e.ev = "ctxsnap"  -> PCtxSnap(e.actor, SeqToSet(e.live))
       [] e.ev = "enter"    -> PEnter(e.inst, e.tag, e.key, e.dead)
       [] e.ev = "leave"    -> PLeave(e.inst, e.out)
@@ -29,8 +29,8 @@ Apply(e) ==
       [] e.ev = "bo"       -> PBo(e.op)
       [] e.ev = "teardown" -> PTeardown
       [] e.ev = "quiet"    -> PQuiet(SeqToSet(e.live), SeqToSet(e.active), SeqToSet(e.blk), e.gstate)
-      [] e.ev \in {"leak", "note", "end", "spin"} -> UNCHANGED pvars
-      [] OTHER             -> bad' = bad \cup {"Unexplained"} /\ UNCHANGED <<cfg, clk, now, pctx, prt, epoch, inst, calls, snapw, chs, credit, creditR, needEnter, ctxTouch, status, cbseen, boReset, td>>
+      [] e.ev \in {"leak", "note", "end", "spin", "panic"} -> UNCHANGED pvars
+      [] OTHER             -> bad' = bad \cup {"Unexplained"} /\ UNCHANGED <<cfg, clk, now, pctx, prt, epoch, inst, calls, snapw, chs, credit, creditR, needEnter, ctxTouch, status, cbseen, boReset, boStop, td>>
 
 TStep ==
     /\ l <= Len(Trace)
